@@ -138,6 +138,13 @@ func cmdCheck(args []string) (code int) {
 				"functions are identified by package, receiver and name as anchored in properties.jsonl; a renamed anchor yields 'undecided' (exit 1), never a silent pass"}
 			r.Analysed["packages"] = len(p.Pkgs)
 			r.Analysed["functions_with_bodies"] = len(p.NexusFuncs)
+			r.Analysed["helpers_inlined_by_normalisation"] = len(p.Inlined)
+			if len(p.Notes) > 0 {
+				r.Extra["normalisation"] = p.Notes
+				for _, n := range p.Notes {
+					fmt.Println("NOTE normalisation:", n)
+				}
+			}
 			defer func() {
 				if e := recover(); e != nil {
 					r.Unknown("PANIC", id, "checker panic", "-", fmt.Sprint(e))
